@@ -13,6 +13,18 @@ CLAIMED = {
         note=TB + "Bounded in digit count only (<= 40; quick tier <= 12); A-dec: lexical order of equal-length digit strings is numeric order (conformance-tested).",
     ),
 }
+CLAIMED["C11"] = dict(
+    category="proof",
+    technique="contract-based deductive verification: element-wise VC over every porcelain status code and a symbolic path (string theory, z3/cvc5); abort rules as postconditions over the effect log",
+    text="VCSAPI.status is proved, for every XY status code git can print and every path, to report exactly the paths that are dirty or carry a pattern, under their own name; assert_not_dirty is proved to exit 1 (before any write) iff the tree is dirty and not allowed, or a pattern file is dirty.",
+    note=TB + "A-git: porcelain v1 line format 'XY PATH' (rename/copy lines excluded); paths are edge-clean (git quotes others). set intersection is the uninterpreted A-set predicate used identically by code model and spec.",
+)
+CLAIMED["C14"] = dict(
+    category="proof",
+    technique="complete enumeration of datetime.date through the real cal_info (X) plus contract-based VCs for the week-pattern guard and the future guard of incr (z3)",
+    text="Monotonicity of every coherent year x sub-part pairing is decided by enumerating every consecutive day pair of the whole datetime.date type and, rendered through the real format_version and comparison key, every day 2001..2099; the rejection guard and the 'never backwards' guard of incr are postconditions discharged for all inputs.",
+    note=TB + "X is evaluation, not deduction (complete for the stated finite domain). strftime is evaluated, never axiomatised.",
+)
 _PENDING = "check not built yet in this round (work in progress, see DESIGN.md section 2)"
-NOT_APPLICABLE = {p: _PENDING for p in ["C01","C02","C03","C04","C06","C07","C08","C09","C10","C11","C12","C13","C14","C15","C16","C18","C19","C20"]}
+NOT_APPLICABLE = {p: _PENDING for p in ["C01","C02","C03","C04","C06","C07","C08","C09","C10","C12","C13","C15","C16","C18","C19","C20"]}
 NOTES = "Contract-based deductive verification of the real Python source (pyvc). See DESIGN.md."
